@@ -1088,6 +1088,7 @@ func (this *rolzCodec2) Forward(src, dst []byte) (uint, uint, error) {
 	srcEnd := len(src) - 4
 	srcIdx := 0
 	dstIdx := 5
+	dstEnd := len(dst) - 256 // room for one symbol, the last literals and the flush of the encoder
 	startChunk := 0
 	binary.BigEndian.PutUint32(dst[0:], uint32(len(src)))
 	re, _ := newRolzEncoder(9, this.logPosChecks, dst, &dstIdx)
@@ -1157,6 +1158,11 @@ func (this *rolzCodec2) Forward(src, dst []byte) (uint, uint, error) {
 
 		// Next chunk
 		for srcIdx < sizeChunk {
+			if dstIdx >= dstEnd {
+				// The block expands (the encoder does not check the output index for each byte)
+				return uint(startChunk + srcIdx), uint(dstIdx), errors.New("ROLZX codec forward transform skip: no compression")
+			}
+
 			re.setContext(_ROLZ_LITERAL_CTX, buf[srcIdx-1])
 			var key uint32
 
